@@ -156,7 +156,7 @@ static int walk(int kind, const uint8_t *a, size_t n, int mode, size_t piece, ob
 		o->hdr[o->members] = header_hash(h);
 		vf_step(o->hdr[o->members]);
 		/* -pm1- is endless by specification: a member declaring gigabytes legitimately produces them; list it only */
-		if (mode && h->length > (32u << 20) && !strcmp(h->compress_method, "-pm1-")) { ++o->members; continue; }
+		if (mode && h->length > (1u << 20) && !strcmp(h->compress_method, "-pm1-")) { ++o->members; continue; }
 		if (mode == 1) {
 			uint64_t bh = 0;
 			size_t tot = 0, got;
@@ -733,7 +733,7 @@ static void extract_walk(const uint8_t *a, size_t n)
 	while ((h = lha_reader_next_file(rd)) != NULL && k < 200) {
 		/* explicit output names: the library itself does not confine header paths */
 		snprintf(name, sizeof name, "c08-out-%d-%d", (int) getpid(), k);
-		if (!(h->length > (32u << 20) && !strcmp(h->compress_method, "-pm1-")))
+		if (!(h->length > (1u << 20) && !strcmp(h->compress_method, "-pm1-")))
 			lha_reader_extract(rd, name, NULL, NULL);
 		(void) lha_reader_current_is_fake(rd);
 		++k;
